@@ -11,15 +11,26 @@ PATH = 'pero_ocr/ocr_engine/line_ocr_engine.py'
 CONTRACTS = {}
 REGISTRY = dict(seqalign.CONTRACTS)
 
+FBO_BEST = ('((best_overlap == 0 and best_cer == 1 and forall(lambda j: implies(1 <= j and j <= %(k)s, cers[j] >= 1))) or '
+            '(1 <= best_overlap and best_overlap <= %(k)s and best_cer == cers[best_overlap] and best_cer < 1 and '
+            'forall(lambda j: implies(1 <= j and j <= %(k)s, cers[j] >= best_cer)) and '
+            'forall(lambda j: implies(1 <= j and j < best_overlap, cers[j] > best_cer))))')
+
 CONTRACTS[(PATH, 'find_best_overlap')] = Contract(
     params={'text1': 'list:sym', 'text2': 'list:sym'},
     ensures=['0 <= result', 'result <= len(text1)', 'result <= len(text2)'],
     public_ensures=['0 <= result', 'result <= len(text1)', 'result <= len(text2)'],
     result=lambda ex, st, env: z3.Int(fresh_name('overlap')),
     loops={0: LoopSpec(counter='k', types={'best_cer': 'real'},
+                       ghost_init=['cers = np.zeros(max_overlap + 2)'], ghost_post=['cers[i] = cer'],
                        inv=['0 <= best_overlap', 'best_overlap <= k', 'best_overlap <= max_overlap',
-                            'max_overlap <= len(text1)', 'max_overlap <= len(text2)', 'best_cer <= 1'])},
+                            'max_overlap <= len(text1)', 'max_overlap <= len(text2)', 'best_cer <= 1',
+                            'len(cers) == max_overlap + 2', FBO_BEST % {'k': 'k'}])},
 )
+CONTRACTS[(PATH, 'find_best_overlap')].ensures.append(
+    # cers[j]: the character error rate computed for overlap length j (ghost record).  The detected overlap is the FIRST length whose
+    # error rate is minimal, provided that minimum is below 1; parts without any partially matching suffix/prefix pair have overlap 0
+    FBO_BEST % {'k': 'max_overlap'})
 
 HALF_UP = '(last_o + 1) // 2'
 STEP = ('implies(k >= 1, result_transcription == gprev[:len(gprev) - ' + HALF_UP + '] + gpart[last_o // 2:])')
